@@ -74,13 +74,27 @@ def events_for_case(o, cid, gam, qs, ids, metrics=sd.METRICS, extra_targets=()):
             for m in metrics:
                 if len(sd.rel_scores(o2, m)):
                     sd.threshold_event(ev, s, o2, m, qs, gam, extra_targets=extra_targets)
-    if cid % 3 == 0:
+    if cid % 6 == 0:
         # history: another configuration is assigned to the (already queried) object
         o2 = sd.set_config_event(ev, s, o, gam, k=cid // 3)
         if o2 is not None:
             for m in metrics[(cid // 3) % 2::2]:
                 if len(sd.rel_scores(o2, m)):
                     sd.threshold_event(ev, s, o2, m, qs, gam, extra_targets=extra_targets)
+    elif cid % 6 == 3:
+        # history: a copy (shallow / deep / pickled) gets another configuration and is queried; then the
+        # original is queried again
+        how = ["copy", "deepcopy", "pickle"][(cid // 6) % 3]
+        s2 = sd.copy_event(ev, s, o, gam, h=1, h2=8, how=how)
+        if s2 is not None:
+            o2 = sd.set_config_event(ev, s2, o, gam, h=8, k=cid // 6)
+            if o2 is not None:
+                for m in metrics[(cid // 6) % 2::2]:
+                    if len(sd.rel_scores(o2, m)):
+                        sd.threshold_event(ev, s2, o2, m, qs, gam, h=8, extra_targets=extra_targets)
+            for m in metrics[(cid // 6 + 1) % 2::2]:
+                if len(sd.rel_scores(o, m)):
+                    sd.threshold_event(ev, s, o, m, qs, gam, extra_targets=extra_targets)
     return evs
 
 
